@@ -334,7 +334,34 @@ class CheckerOnMutants(NativeCase):
                     self.ob('distinguishable=>not-equal', not eq,
                             inputs=dict(block=b, mutant=' '.join(m), kind=kind, opts=opts,
                                         witness=dict(stack=[hex(x) for x in witness[0]], seed=witness[1], why=witness[2])))
+        # explicit pairs: the same operations with their operands, executed in another order (identifiers of the two
+        # specifications coincide literally although they name different operations - finding F26)
+        for a, b in REORDERED_PAIRS:
+            ia, ib = corpus.tokens(a), corpus.tokens(b)
+            d2 = max(utils.compute_stack_size(plain_names(ia)), utils.compute_stack_size(plain_names(ib)))
+            witness = evmexec.distinguishable(block_items(ia), block_items(ib), d2, n=n_states)
+            if witness is None:
+                continue
+            try:
+                eq, reason = checker_verdict(ia, ib, d2)
+            except FrontEndFailure:
+                continue
+            except BaseException as e:
+                self.ob('never-raises', False, inputs=dict(block=a, mutant=b, kind='reordered-operations'), info=repr(e))
+                continue
+            self.ob('distinguishable=>not-equal', not eq,
+                    inputs=dict(block=a, mutant=b, kind='reordered-operations',
+                                witness=dict(stack=[hex(x) for x in witness[0]], seed=witness[1], why=witness[2])))
         cleanup_tmp()
+
+
+_SHUFFLE = "SWAP2 SWAP1 SWAP3 SWAP1"        # (a b c d) -> (c d a b)
+REORDERED_PAIRS = [("SSTORE SSTORE", _SHUFFLE + " SSTORE SSTORE"), ("MSTORE MSTORE", _SHUFFLE + " MSTORE MSTORE"),
+                   ("MSTORE8 MSTORE", _SHUFFLE + " MSTORE MSTORE8"), ("MSTORE MSTORE8", _SHUFFLE + " MSTORE8 MSTORE"),
+                   ("MSTORE8 MSTORE8", _SHUFFLE + " MSTORE8 MSTORE8"),
+                   ("SLOAD SWAP2 SWAP1 SSTORE", "SWAP2 SWAP1 SWAP2 SWAP1 SSTORE SLOAD".replace("SWAP2 SWAP1 SWAP2 SWAP1", "SWAP1 SWAP2")),
+                   ("MLOAD SWAP2 SWAP1 MSTORE", "SWAP1 SWAP2 MSTORE MLOAD"),
+                   ("DUP2 DUP2 SSTORE SSTORE SSTORE", "DUP2 DUP2 SSTORE SWAP2 SWAP1 SWAP3 SWAP1 SSTORE SSTORE")]
 
 
 _old_cases = cases
